@@ -187,6 +187,35 @@ priority = 50
         sc.timeout_s = 60
         sc.meta = {"tests": tests, "retries": 0, "threads": 4, "heavy": True, "group_m": None, "group_r": None, "grace": GRACE, "delay_ms": 0, "backoff": "fixed", "run_ignored": "default", "extra": False, "store_s": False, "store_f": True}
         return sc
+    if k == 6:
+        # fixed scenario (corpus): the COMBINED capture mode (stdout and stderr into one pipe; selected by the libtest-json message
+        # format): every byte of both streams, in the order written, per attempt
+        def both(tag, n_out, n_err, code):
+            return {"kind": "pass" if code == 0 else "fail", "acts": [f"outn:out:{tag}:{n_out}:4096:0:ascii", f"outn:err:{tag + 1}:{n_err}:4096:0:ascii", f"exit:{code}"],
+                    "out": (tag, n_out, "ascii"), "err": (tag + 1, n_err, "ascii"), "expect": "P" if code == 0 else "F"}
+        tests = [{"bin": "t_one", "pkg": "alpha", "name": "c_small", "ignored": False, "attempts": [both(200, 300, 200, 0)]},
+                 {"bin": "t_one", "pkg": "alpha", "name": "c_big", "ignored": False, "attempts": [both(210, 150000, 70000, 0)]},
+                 {"bin": "t_two", "pkg": "alpha", "name": "c_flaky", "ignored": False, "attempts": [both(220, 5000, 10, 1), both(230, 10, 5000, 0)]},
+                 {"bin": "t_three", "pkg": "beta", "name": "c_fail", "ignored": False, "attempts": [both(240, 4096, 4097, 3), both(250, 1, 0, 3)]}]
+        for t in tests: sc.test(t["bin"], t["name"], {str(i + 1): a["acts"] for i, a in enumerate(t["attempts"])})
+        sc.config = '''[profile.default]
+retries = 1
+test-threads = 3
+fail-fast = false
+status-level = "all"
+final-status-level = "all"
+failure-output = "never"
+success-output = "never"
+[profile.default.junit]
+path = "@JUNIT@"
+store-success-output = false
+store-failure-output = true
+'''
+        sc.cli = ["--message-format", "libtest-json"]
+        sc.env = {"NEXTEST_EXPERIMENTAL_LIBTEST_JSON": "1"}
+        sc.timeout_s = 60
+        sc.meta = {"tests": tests, "retries": 1, "threads": 3, "heavy": False, "group_m": None, "group_r": None, "grace": GRACE, "delay_ms": 0, "backoff": "fixed", "run_ignored": "default", "extra": False, "store_s": False, "store_f": True, "combined": True}
+        return sc
     retries = rng.choice([0, 0, 1, 2])
     threads = rng.choice([1, 2, 4])
     delay_ms = rng.choice([0, 0, 150]) if retries else 0
@@ -527,12 +556,21 @@ def mon_output(sc, r):
     out = []
     total = sc.meta["retries"] + 1
     fin = finished_statuses(r)
+    if r.exit is not None and r.exit < 0:
+        out.append(viol(sc, r, "capture", f"nextest itself died by signal {-r.exit} ({'combined' if sc.meta.get('combined') else 'split'} capture mode): {r.stderr[-300:]!r}"))
     for t in sc.meta["tests"]:
         if not selected(sc, t): continue
         sts = fin.get(test_key(t), [[]])[0]
         for s, a in zip(sts, expected_attempts(t, total)):
             f = s.split(":")
             cap = ":".join(f[5:])
+            mc = re.match(r"combined:(\d+):([0-9a-f]+)", cap)
+            if mc and sc.meta.get("combined"):
+                # one pipe for both streams: the process writes stdout then stderr, so the combined capture is their concatenation
+                data = (xxh64.pattern(*a["out"]) if a["out"] else b"") + (xxh64.pattern(*a["err"]) if a["err"] else b"")
+                if int(mc.group(1)) != len(data) or int(mc.group(2), 16) != xxh64.xxh64(data):
+                    out.append(viol(sc, r, "capture", f"test {t['name']!r} attempt {f[0]}: combined capture is {mc.group(1)} bytes (xxh64 {mc.group(2)}), the process wrote {len(data)} bytes (stdout then stderr; xxh64 {xxh64.xxh64(data):016x})"))
+                continue
             m = re.match(r"split:(\d+):([0-9a-f]+):(\d+):([0-9a-f]+)", cap)
             if not m:
                 out.append(viol(sc, r, "capture", f"test {t['name']!r}: unexpected capture record {cap}")); continue
@@ -585,9 +623,11 @@ def mon_junit(sc, r):
         if not final_ok and sc.meta["store_f"]:
             texts = [e.text or "" for e in c.iter() if e.tag in ("system-out", "system-err")]
             for k, a in enumerate(exp):
-                for spec in (a["out"], a["err"]):
+                # (combined capture: one stored stream holding stdout followed by stderr)
+                specs = [(a["out"][0], a["out"][1], "ascii", a["err"])] if (sc.meta.get("combined") and a["out"] and a["err"]) else [s_ + (None,) for s_ in (a["out"], a["err"]) if s_]
+                for spec in specs:
                     if spec and spec[2] == "ascii" and spec[1] >= 10:
-                        data = xxh64.pattern(spec[0], spec[1], "ascii").decode()
+                        data = xxh64.pattern(spec[0], spec[1], "ascii").decode() + (xxh64.pattern(spec[3][0], spec[3][1], "ascii").decode() if spec[3] else "")
                         # the patterns are periodic: a short one recurs inside a long one, so count stored elements that *are* this output
                         cnt = sum(1 for t in texts if data in t and len(t) - len(data) < 64)
                         if cnt != 1: out.append(viol(sc, r, "junit-attribution", f"test {t['name']!r}: the output of attempt {k + 1} is stored {cnt} times in its testcase (must be exactly once)"))
